@@ -27,7 +27,8 @@ def _run_job(job):
             fn = getattr(mod, job['fn'])
             res = explore(fn, job['name'], params=job.get('params') or {}, opts=job.get('opts'),
                           max_paths=job.get('max_paths', 200000), budget_s=job.get('budget_s', 300),
-                          witness_every=job.get('witness_every', 1))
+                          witness_every=job.get('witness_every', 1),
+                          stop_on_violation=not job.get('continue_after_violation', False))
         else:
             fn = getattr(mod, job['fn'])
             res = fn(job)
